@@ -117,13 +117,17 @@ type textEdit struct {
 
 // normalise computes the overlay (file name -> new content) that inlines the
 // unknown helpers of one pass; nil when there is nothing to do.
+// inlineUniq numbers the generated labels and result variables; it runs on
+// over the passes so that a body copied in a later pass cannot clash with the
+// names generated for its own earlier inlinings.
+var inlineUniq int
+
 func normalise(mod []*packages.Package, fset *token.FileSet, known map[string]bool, prev map[string][]byte, note func(string)) map[string][]byte {
 	overlay := map[string][]byte{}
 	for k, v := range prev {
 		overlay[k] = v
 	}
 	changed := false
-	uniq := 0
 	for _, p := range mod {
 		info := p.TypesInfo
 		// candidates
@@ -163,8 +167,11 @@ func normalise(mod []*packages.Package, fset *token.FileSet, known map[string]bo
 					})
 					return false
 				case *ast.LabeledStmt, *ast.BranchStmt:
-					if b, ok := x.(*ast.BranchStmt); ok && b.Label == nil {
+					if b, ok := x.(*ast.BranchStmt); ok && (b.Label == nil || strings.HasPrefix(b.Label.Name, "_inl")) {
 						return true
+					}
+					if l, ok := x.(*ast.LabeledStmt); ok && strings.HasPrefix(l.Label.Name, "_inl") {
+						return true // generated by an earlier pass: unique in the module
 					}
 					bad = true
 				case *ast.DeferStmt:
@@ -422,8 +429,8 @@ func normalise(mod []*packages.Package, fset *token.FileSet, known map[string]bo
 			// per site
 			siteEdits := map[*ast.File][]textEdit{}
 			for _, s := range cd.sites {
-				uniq++
-				tag := fmt.Sprintf("_inl%d", uniq)
+				inlineUniq++
+				tag := fmt.Sprintf("_inl%d", inlineUniq)
 				if imports[s.file] == nil {
 					imports[s.file] = map[string]string{}
 				}
@@ -834,7 +841,20 @@ func restIsPure(info *types.Info, st ast.Stmt, call *ast.CallExpr) bool {
 						return true
 					}
 				}
+				if y.Pos() <= call.Pos() && call.End() <= y.End() {
+					// a call that has `call` among its operands runs after it either way
+					return true
+				}
+				if y.Pos() >= call.End() {
+					// calls happen in lexical order: this one runs after `call` either way
+					return true
+				}
 				pure = false
+			case *ast.BinaryExpr:
+				// the right operand of && / || is evaluated conditionally
+				if (y.Op == token.LAND || y.Op == token.LOR) && y.Y.Pos() <= call.Pos() && call.End() <= y.Y.End() {
+					pure = false
+				}
 			case *ast.FuncLit:
 				pure = false
 				return false
